@@ -38,6 +38,8 @@ type CutSpec struct {
 type LoopSpec struct {
 	Invariants []SpecExpr
 	Modifies   []SpecExpr
+	Names      []SpecExpr // loop variables / cells renamed to fresh variables at every unrolled arrival
+	Asserts    []SpecExpr // proved and then assumed at every arrival of a concretely unrolled loop head
 	Peel       int // number of leading iterations executed concretely before the invariant takes over
 }
 
@@ -49,6 +51,7 @@ type FuncContract struct {
 	Requires []SpecExpr
 	Cases    []SpecExpr // requires-cases: the disjunction is required; the body is verified once per case
 	Ensures  []SpecExpr
+	AssumedEnsures []SpecExpr // postconditions callers may rely on but which are NOT proved of the body (listed as assumptions)
 	Modifies []SpecExpr
 	HasMod   bool
 	Panics   *SpecExpr // panics iff this holds; nil = must not panic
@@ -181,8 +184,8 @@ var reClass = regexp.MustCompile(`^class\s+([A-Za-z0-9_]+)\s*=\s*\[(.*)\]\s*$`)
 var reUfun = regexp.MustCompile(`^ufun\s+([A-Za-z0-9_]+)\s*\(([^)]*)\)\s*([A-Za-z0-9_]+)\s*$`)
 var reAxiom = regexp.MustCompile(`^(axiom|lemma)\s+([A-Za-z0-9_\-]+)(\s*\[[A-Za-z0-9_,\- ]+\])?\s*:\s*(.*)$`)
 var reCut = regexp.MustCompile(`^cut\s+call#([0-9]+)\s+havoc\s+([^:]*):\s*(.*)$`)
-var reCutNamed = regexp.MustCompile(`^cut\s+((?:before|after)\s+(?:call|store)\s+[A-Za-z0-9_.$]+(?:#[0-9]+)?)\s+havoc\s+([^:]*):\s*(.*)$`)
-var reLoop = regexp.MustCompile(`^loop#([0-9]+)\s+(invariant|modifies|peel)\s+(.*)$`)
+var reCutNamed = regexp.MustCompile(`^cut\s+((?:before|after)\s+(?:call|store)\s+[A-Za-z0-9_.$]+(?:#[0-9]+)?|at\s+loop#[0-9]+)\s+havoc\s+([^:]*):\s*(.*)$`)
+var reLoop = regexp.MustCompile(`^loop#([0-9]+)\s+(invariant|modifies|peel|assert|name)\s+(.*)$`)
 
 func sortOf(s string) Sort {
 	switch s {
@@ -320,6 +323,12 @@ func ParseContracts(file, pkg string, configOK func(pred string) bool) (*PkgCont
 			kw, rest = body[:i], strings.TrimSpace(body[i+1:])
 		}
 		switch {
+		case kw == "assume-ensures":
+			e, err := parseSpecExpr(rest, line)
+			if err != nil {
+				return nil, err
+			}
+			cur.AssumedEnsures = append(cur.AssumedEnsures, e)
 		case kw == "requires" || kw == "ensures":
 			e, err := parseSpecExpr(rest, line)
 			if err != nil {
@@ -442,7 +451,21 @@ func ParseContracts(file, pkg string, configOK func(pred string) bool) (*PkgCont
 				ls = &LoopSpec{}
 				cur.Loops[n] = ls
 			}
-			if m[2] == "peel" {
+			if m[2] == "name" {
+				for _, p := range splitTop(m[3], ',') {
+					e, err := parseSpecExpr(p, line)
+					if err != nil {
+						return nil, err
+					}
+					ls.Names = append(ls.Names, e)
+				}
+			} else if m[2] == "assert" {
+				e, err := parseSpecExpr(m[3], line)
+				if err != nil {
+					return nil, err
+				}
+				ls.Asserts = append(ls.Asserts, e)
+			} else if m[2] == "peel" {
 				ls.Peel, _ = strconv.Atoi(strings.TrimSpace(m[3]))
 			} else if m[2] == "invariant" {
 				e, err := parseSpecExpr(m[3], line)
